@@ -19,6 +19,6 @@ def run(tier, t0):
 
     def scope(fn):
         return fn.file in ('core/directives_if.cpp', 'core/ifdef_expression.cpp') or fn.q == 'parse_directives'
-    results = [cond.ifop(prog), cond.openers(prog), cond.ifdef_table(prog), cond.else_guard(prog),
+    results = [cond.ifop(prog), cond.openers(prog), cond.ifdef_table(prog), cond.else_guard(prog), cond.ifdef_raw(prog), cond.tok_op(prog), cond.ret_store(prog), cond.endif_protocol(prog),
                err.err1(prog, scope, table, floor=8), err.err2(prog, scope, table, floor=10)]
     return report.finish('C10', tier, results, EXPLANATION, [], common.TRUSTED, t0)
